@@ -47,26 +47,3 @@ fn('dsplib::_power', M, sig='double (const double &, int)', key='_power(real,int
             ('general', 'Implies(And(n != 2, n != -1, n != 0, n != 1), result == POW(x, ToReal(n)))')])
 
 
-# ---------------------------------------------------------------------------------------------------
-# remaining generators (C19): block draws are the engine's stream, the state advances by the number of draws
-from contracts.random import ENV as RENV, RN
-import z3 as _z3
-UNI = _z3.Function('draw_uniform_real', _z3.IntSort(), _z3.RealSort(), _z3.RealSort(), _z3.RealSort())
-UNII = _z3.Function('draw_uniform_int', _z3.IntSort(), _z3.IntSort(), _z3.IntSort(), _z3.IntSort())
-RENV2 = dict(RENV, UNI=UNI, UNII=UNII)
-fn('dsplib::rand', RN, sig='dsplib::arr_real (int)', key='rand(n)', serves=['C19', 'C09', 'C05'], extra_env=RENV2, assigns=['g_engine'], globals=['g_engine'],
-   requires=[('size', 'n >= 0')], throws='False',
-   ensures=[('length', 'result.len == n'),
-            ('stream', 'forall(lambda k: Implies(And(0 <= k, k < n), result[k] == UNI(RNGK(old.g_engine, k), 0, 1)))'),
-            ('state', 'g_engine == RNGK(old.g_engine, n)')],
-   loops={1: {'facts': ['RNGK_STEP(old.g_engine, i)'],
-              'inv': [('len', 'r.len == n'), ('state', 'g_engine == RNGK(old.g_engine, i)'),
-                      ('done', 'forall(lambda k: Implies(And(0 <= k, k < i), r[k] == UNI(RNGK(old.g_engine, k), 0, 1)))')]}})
-fn('dsplib::randi', RN, sig='dsplib::arr_int (std::array<int, 2>, int)', key='randi(range,n)', serves=['C19', 'C09', 'C05'], extra_env=RENV2, assigns=['g_engine'], globals=['g_engine'],
-   requires=[('pair', 'range.len == 2'), ('ordered', 'range[0] <= range[1]'), ('size', 'n >= 0')], throws='False',
-   ensures=[('length', 'result.len == n'),
-            ('inclusive_bounds', 'forall(lambda k: Implies(And(0 <= k, k < n), And(range[0] <= result[k], result[k] <= range[1])))'),
-            ('state', 'g_engine == RNGK(old.g_engine, n)')],
-   loops={1: {'facts': ['RNGK_STEP(old.g_engine, i)'],
-              'inv': [('len', 'r.len == n'), ('state', 'g_engine == RNGK(old.g_engine, i)'),
-                      ('done', 'forall(lambda k: Implies(And(0 <= k, k < i), And(range[0] <= r[k], r[k] <= range[1])))')]}})
